@@ -16,6 +16,17 @@ def main():
         sd = os.path.join(d, "spec")
         shutil.copytree(core.SPEC, sd)
         for f in sorted(glob.glob(os.path.join(sd, "*.tla"))):
+            if "EXTENDS" in open(f).read() and " Apalache" in open(f).read().split("EXTENDS", 1)[1].split("\n", 1)[0]:
+                # modules written for Apalache extend its own standard module, which SANY does not know: parse and
+                # type-check them with Apalache itself
+                p = subprocess.run(["apalache-mc", "typecheck", os.path.basename(f)], cwd=sd, stdout=subprocess.PIPE, stderr=subprocess.STDOUT)
+                out = p.stdout.decode("utf-8", "replace")
+                bad = p.returncode != 0 or "EXITCODE: OK" not in out
+                print("[apalache typecheck] %-15s %s" % (os.path.basename(f), "FAILED" if bad else "ok"))
+                if bad:
+                    print(out[-3000:])
+                    rc = 1
+                continue
             p = subprocess.run(["java", "-cp", core.TLA_CP, "tla2sany.SANY", os.path.basename(f)], cwd=sd,
                                stdout=subprocess.PIPE, stderr=subprocess.STDOUT)
             out = p.stdout.decode("utf-8", "replace")
